@@ -335,6 +335,30 @@ pub fn run(ctx: &mut Ctx) {
     ctx.stage("chunk-offsets");
     let n = ctx.pick(40_000u32, 400_000u32) / ctx.nshards;
     ctx.run_prop(family_a(), n, |ctx, c| oracle(ctx, c));
+    // ---- long recordings behind the 2^32 mark: thousands of chunks whose offsets all need the
+    // 64-bit form (tables far longer than any short history produces) ----
+    ctx.stage("long-histories");
+    let lens: &[u32] = if ctx.quick() { &[4097, 5000] } else { &[1023, 4096, 4097, 5000, 8193, 12_000] };
+    let mut idx = 0u64;
+    for &n_chunks in lens {
+        for (two, start) in [(false, (1u64 << 32) + 3), (true, (1u64 << 32) - 40_000), (true, 3u64 << 32)] {
+            let my = idx;
+            idx += 1;
+            if !ctx.enter(my) {
+                continue;
+            }
+            let ts = 10u32;
+            let mut tracks = vec![track(4, ts)];
+            if two {
+                tracks.push(track(3, ts));
+            }
+            let ops: Vec<BOp> = (0..n_chunks * if two { 2 } else { 1 }).map(|i| BOp { track: 1 + (two && i % 2 == 1) as u32, size: 1 + i % 7, fill: 1 + (i % 200) as u8, dur: ts, cts: 0, sync: true }).collect();
+            let c = Case { family: "a:long-history-beyond-2^32".into(), start_pos: start, timescale: 1000, tracks, ops };
+            ctx.pre_case(&c);
+            let res = oracle(ctx, &c);
+            ctx.judge(&c, res);
+        }
+    }
     ctx.stage("durations");
     let n = ctx.pick(40_000u32, 400_000u32) / ctx.nshards;
     ctx.run_prop(family_c(), n, |ctx, c| oracle(ctx, c));
